@@ -12,6 +12,15 @@ fn seed() -> u64 {
     std::env::var("VERIF_SEED").ok().and_then(|s| s.parse().ok()).unwrap_or(1)
 }
 
+/// evaluate one form; a Rust panic inside the VM is an observation ("panic"), not a harness crash
+fn eval_obs(vm: &mut Vm, text: &str) -> String {
+    let r = mwv::wire::catch(std::panic::AssertUnwindSafe(|| eval_form(vm, text)));
+    match r {
+        Ok(r) => render(&r),
+        Err(_) => "panic".to_string(),
+    }
+}
+
 /// run one form uninterrupted; returns (rendered outcome, instructions executed)
 fn run_uninterrupted(vm: &mut Vm, text: &str) -> (String, u64) {
     let before = vm.verif_state().instructions;
@@ -92,7 +101,11 @@ fn defined_names(forms: &[Sx]) -> Vec<String> {
 }
 
 /// C05 scenarios with closed-form expectations: (form, expected outcome)
+/// lock-step replay ships every instruction across; there the deep scenarios use small depths
+static SHALLOW: std::sync::atomic::AtomicBool = std::sync::atomic::AtomicBool::new(false);
+
 fn cont_scenario(case: usize, rng: &mut Rng) -> Vec<(String, String)> {
+    let shallow = SHALLOW.load(std::sync::atomic::Ordering::Relaxed);
     let v = rng.range(-50, 50);
     let w = rng.range(-50, 50);
     let c = rng.range(0, 9);
@@ -104,7 +117,7 @@ fn cont_scenario(case: usize, rng: &mut Rng) -> Vec<(String, String)> {
     forms.push(("(define g 0)".into(), void()));
     forms.push(("(define kv (vector #f #f))".into(), void()));
     forms.push(("(define kp (cons #f #f))".into(), void()));
-    match case % 9 {
+    match case % 12 {
         0 => {
             // escape from depth d, value delivered to a pending (+ c _)
             forms.push((format!("(+ {} (call/cc (lambda (k) (* 2 (deepcall {} (lambda () (k {})))))))", c, d, v), format!("ok {}", c + v)));
@@ -162,6 +175,44 @@ fn cont_scenario(case: usize, rng: &mut Rng) -> Vec<(String, String)> {
             forms.push(("total".into(), format!("ok {}", 2 * v + w)));
             forms.push((format!("(kk {})", c), void()));
             forms.push(("total".into(), format!("ok {}", 2 * v + c)));
+        }
+        9 => {
+            // a continuation captured DEEP (the stack has grown beyond its initial capacity), stored, the
+            // capturing evaluation finishes, re-entry from later top-level forms
+            let dd = if shallow { [4i64, 9, 15][(case / 12) % 3] } else { [40i64, 120, 400][(case / 12) % 3] };
+            forms.push((format!("(define r (+ {} (deepcall {} (lambda () (call/cc (lambda (k) (set! kk k) {}))))))", c, dd, v), void()));
+            forms.push(("r".into(), format!("ok {}", c + v)));
+            forms.push(("(deepcall 3 (lambda () 1))".into(), "ok 1".into()));
+            forms.push((format!("(begin (set! g (+ g 1)) (kk {}) 'never)", w), void()));
+            forms.push(("r".into(), format!("ok {}", c + w)));
+            forms.push((format!("(begin (kk {}) 'never)", v), void()));
+            forms.push(("r".into(), format!("ok {}", c + v)));
+            forms.push(("g".into(), "ok 1".into()));
+        }
+        10 => {
+            // deep capture, then FAILING evaluations (shallow and deep), then re-entry: a failed evaluation
+            // must not disturb a stored continuation
+            let dd = if shallow { [4i64, 9, 15][(case / 12) % 3] } else { [60i64, 150, 300][(case / 12) % 3] };
+            forms.push((format!("(define r (+ {} (deepcall {} (lambda () (call/cc (lambda (k) (set! kk k) {}))))))", c, dd, v), void()));
+            forms.push(("(car 5)".into(), "err type".into()));
+            forms.push(("(undefined-variable-zz 1)".into(), "err unbound".into()));
+            forms.push((format!("(deepcall {} (lambda () (car '())))", dd / 2), "err type".into()));
+            forms.push(("(error \"boom\" 1)".into(), "err user".into()));
+            forms.push((format!("(begin (kk {}) 'never)", w), void()));
+            forms.push(("r".into(), format!("ok {}", c + w)));
+            forms.push(("(car 5)".into(), "err type".into()));
+            forms.push((format!("(begin (kk {}) 'never)", v), void()));
+            forms.push(("r".into(), format!("ok {}", c + v)));
+        }
+        11 => {
+            // deep capture re-entered from a SHALLOW point of the same evaluation and of later ones
+            let dd = if shallow { [4i64, 9, 15][(case / 12) % 3] } else { [50i64, 130, 260][(case / 12) % 3] };
+            forms.push(("(define n 0)".into(), void()));
+            forms.push((format!("(define r (let ((x (+ {} (deepcall {} (lambda () (call/cc (lambda (k) (set! kk k) 0))))))) (if (< n 3) (begin (set! n (+ n 1)) (kk n)) x)))", c, dd), void()));
+            forms.push(("r".into(), format!("ok {}", c + 3)));
+            forms.push(("n".into(), "ok 3".into()));
+            forms.push(("(begin (kk 7) 'never)".into(), void()));
+            forms.push(("r".into(), format!("ok {}", c + 7)));
         }
         _ => {
             // continuation applied through apply; call/cc itself applied through apply
@@ -279,19 +330,41 @@ fn main() {
             let n: usize = args[2].parse().unwrap();
             let mut g = Gen::new(seed());
             let mut sched = Rng::new(seed() ^ 0x13);
+            let mut crng = Rng::new(seed() ^ 0x5c05);
             for case in 0..n {
-                let forms = g.session(2 + (case % 6), 1 + case % 3);
-                let names = defined_names(&forms);
+                // every fifth session is a continuation scenario (deep captures, re-entry across forms, failures
+                // in between); every seventh has failing forms injected at depth, so that a failure can fall
+                // into any slice; the others are generated sessions of the C01/C05 grammar
+                let (texts, names): (Vec<String>, Vec<String>) = if case % 5 == 4 {
+                    let t: Vec<String> = cont_scenario(case / 5, &mut crng).into_iter().map(|(f, _)| f).collect();
+                    (t, vec!["g".to_string()])
+                } else {
+                    let forms = g.session(2 + (case % 6), 1 + case % 3);
+                    let names = defined_names(&forms);
+                    let mut t: Vec<String> = forms.iter().map(|f| f.render()).collect();
+                    if case % 7 == 3 {
+                        let sc = Scope::default();
+                        let (fail, _class) = g.failing_expr(&sc);
+                        let d = 1 + sched.below(40);
+                        t.insert(0, "(define (deepf n x) (if (= n 0) (x) (+ 0 (deepf (- n 1) x))))".to_string());
+                        let pos = 1 + sched.below(t.len() as u64) as usize;
+                        t.insert(pos.min(t.len()), format!("(deepf {} (lambda () {}))", d, fail.render()));
+                        t.push("(deepf 3 (lambda () (car 0)))".to_string());
+                    }
+                    (t, names)
+                };
                 // schedule kind: constant 1..64, or random in 1..10^4
                 let constant = if case % 3 != 2 { Some(1 + sched.below(64) as usize) } else { None };
                 let (mut va, la) = new_vm();
                 let (mut vb, lb) = new_vm();
-                for f in &forms {
-                    let text = f.render();
+                let mut dead = false;
+                for text in &texts {
                     if std::env::var("VERIF_DEBUG_CASE").is_ok() {
                         eprintln!("case {} form {}", case, text);
                     }
-                    let (ra, k) = run_uninterrupted(&mut va, &text);
+                    let before = va.verif_state().instructions;
+                    let ra = eval_obs(&mut va, text);
+                    let k = va.verif_state().instructions - before;
                     let mut used = vec![];
                     let mut next = || {
                         let b = match constant {
@@ -301,14 +374,35 @@ fn main() {
                         used.push(b);
                         b
                     };
-                    let (rb, slices) = run_sliced(&mut vb, &text, &mut next, 200_000);
-                    writeln!(out, "#oracle sliced-outcome {}\t{}\t{}", oneline(&text), oneline(&rb), oneline(&ra)).unwrap();
+                    let sl = mwv::wire::catch(std::panic::AssertUnwindSafe(|| run_sliced(&mut vb, text, &mut next, 400_000)));
+                    let (rb, slices) = match sl {
+                        Ok(x) => x,
+                        Err(_) => ("panic".to_string(), vec![]),
+                    };
+                    writeln!(out, "#oracle sliced-outcome {}\t{}\t{}", oneline(text), oneline(&rb), oneline(&ra)).unwrap();
+                    if ra == "panic" || rb == "panic" {
+                        dead = true;
+                        break;
+                    }
+                    // registers, stack capacity and the trace of the last failure are part of the state a later
+                    // evaluation starts from: equal in both VMs after every form
+                    let st = |vm: &Vm| {
+                        let (_acc, ep, _ip, bp) = vm.verif_regs();
+                        format!("sp={} bp={} ep={} cap={} trace={}", vm.verif_stack().get_sp(), bp,
+                            if ep == usize::MAX { "max".to_string() } else { "set".to_string() },
+                            vm.verif_stack().verif_slots().len(),
+                            vm.last_stacktrace().map(|t| t.frames.len()).unwrap_or(0))
+                    };
+                    writeln!(out, "#oracle sliced-state {}\t{}\t{}", oneline(text), st(&vb), st(&va)).unwrap();
                     if !slices.is_empty() {
                         let kind = if ra.starts_with("ok") { "h" } else { "f" };
                         let bs: Vec<String> = used.iter().map(|b| b.to_string()).collect();
                         let obs: Vec<String> = slices.iter().map(|(c, n)| format!("{}{}", c, n)).collect();
                         writeln!(out, "slices {} {} {}\tok {}", k, kind, bs.join(","), obs.join(" ")).unwrap();
                     }
+                }
+                if dead {
+                    continue;
                 }
                 let oa = la.borrow().join("|");
                 let ob = lb.borrow().join("|");
@@ -332,6 +426,7 @@ fn main() {
                     g.inject = Some((g.int_calls + 1 + (case % 7), e));
                 }
                 let forms: Vec<String> = if args.get(3).map(|s| s == "conts").unwrap_or(false) {
+                    SHALLOW.store(true, std::sync::atomic::Ordering::Relaxed);
                     cont_scenario(case, &mut g.rng).into_iter().map(|(f, _)| f).collect()
                 } else {
                     g.session(2 + (case % 5), 1 + case % 3).iter().map(|f| f.render()).collect()
@@ -407,6 +502,10 @@ fn main() {
                 prologue.push(l(vec![a("define"), a("eff"), int(0)]));
                 prologue.push(a("(define (idf x) x)"));
                 prologue.push(a("(define (deep n x) (if (= n 0) x (+ 0 (deep (- n 1) x))))"));
+                // a continuation captured deep before the failures, re-entered by the probes after them
+                prologue.push(a("(define kk0 #f)"));
+                prologue.push(a("(define (deepk n) (if (= n 0) (call/cc (lambda (k) (set! kk0 k) 1)) (+ 0 (deepk (- n 1)))))"));
+                prologue.push(a(&format!("(define r0 (deepk {}))", [5, 70, 140][case % 3])));
                 names.extend(defined_names(&prologue));
                 for f in &prologue {
                     let t = f.render();
@@ -425,7 +524,7 @@ fn main() {
                             1 => l(vec![a("idf"), e]),
                             2 => l(vec![a("let"), l(vec![l(vec![a("hx"), e])]), a("hx")]),
                             3 => l(vec![a("car"), l(vec![a("list"), e])]),
-                            4 => l(vec![a("deep"), int(g.rng.range(1, 12)), e]),
+                            4 => { let dn = if g.rng.chance(1, 4) { g.rng.range(60, 160) } else { g.rng.range(1, 12) }; l(vec![a("deep"), int(dn), e]) }
                             _ => l(vec![a("call/cc"), l(vec![a("lambda"), l(vec![a("hk")]), l(vec![a("+"), int(0), e])])]),
                         };
                     }
@@ -474,18 +573,25 @@ fn main() {
                 probes.push(g.list_expr(&sc, 2).render());
                 probes.push("(deep 3 (quote x))".into()); // a failing probe: compares stack traces
                 probes.push("(deep 5 7)".into());
+                probes.push("(begin (kk0 41) 'never)".into());
+                probes.push("r0".into());
                 let mut oa = vec![];
                 let mut ob = vec![];
                 for p in &probes {
-                    let ra = eval_form(&mut va, p);
-                    let rb = eval_form(&mut vb, p);
+                    let ra = eval_obs(&mut va, p);
+                    let rb = eval_obs(&mut vb, p);
                     let ta = va.last_stacktrace().map(|t| t.frames.len()).unwrap_or(0);
                     let tb = vb.last_stacktrace().map(|t| t.frames.len()).unwrap_or(0);
-                    oa.push(format!("{}#{}", render(&ra), ta));
-                    ob.push(format!("{}#{}", render(&rb), tb));
+                    oa.push(format!("{}#{}", ra, ta));
+                    ob.push(format!("{}#{}", rb, tb));
+                    if ra == "panic" || rb == "panic" {
+                        break;
+                    }
                 }
-                oa.push(format!("sp={} cap={}", va.verif_stack().get_sp(), va.verif_stack().verif_slots().len()));
-                ob.push(format!("sp={} cap={}", vb.verif_stack().get_sp(), vb.verif_stack().verif_slots().len()));
+                // (the stack capacity is deliberately not compared: the twin evaluates the whole context, the
+                // failing VM stops at the failing sub-expression, so their high-water marks legitimately differ)
+                oa.push(format!("sp={}", va.verif_stack().get_sp()));
+                ob.push(format!("sp={}", vb.verif_stack().get_sp()));
                 oa.push(la.borrow().join("|"));
                 ob.push(lb.borrow().join("|"));
                 writeln!(out, "#oracle after-failures k={} class={} {}\t{}\t{}", k, class, oneline(&form_a), oneline(&oa.join(" ; ")), oneline(&ob.join(" ; "))).unwrap();
@@ -648,8 +754,11 @@ fn main() {
             for case in 0..n {
                 let (mut vm, _log) = new_vm();
                 for (f, exp) in cont_scenario(case, &mut rng) {
-                    let r = eval_form(&mut vm, &f);
-                    writeln!(out, "#oracle callcc case{} {}\t{}\t{}", case % 9, oneline(&f), oneline(&render(&r)), oneline(&exp)).unwrap();
+                    let r = eval_obs(&mut vm, &f);
+                    writeln!(out, "#oracle callcc case{} {}\t{}\t{}", case % 12, oneline(&f), oneline(&r), oneline(&exp)).unwrap();
+                    if r == "panic" {
+                        break; // the VM is not usable after a panic
+                    }
                 }
             }
         }
